@@ -199,6 +199,16 @@ pub fn build(quick: bool) -> Fams {
     mix.extend(rep(7, 20_000));
     mix.extend(text(2, 40_000));
     big_inputs.push(Named { name: format!("mix(text,lcg,rep,text;{})", mix.len()), data: mix });
+    // skewed symbol histograms: Huffman trees deeper than the 15-bit limit (literal and distance trees), with
+    // several shapes of the deepest levels
+    for (n, ones) in if quick { vec![(16usize, 0usize), (18, 0), (18, 4), (20, 3)] } else { vec![(15, 0), (16, 0), (16, 2), (17, 0), (17, 3), (18, 0), (18, 2), (18, 4), (18, 6), (19, 5), (20, 0), (20, 3), (21, 6)] } {
+        big_inputs.push(Named { name: format!("fibhist({n},{ones})"), data: fib_hist(n, ones, 0x30) });
+    }
+    big_inputs.push(Named { name: "fibhist(18,2)@ninebit".into(), data: fib_hist(18, 2, 200) });
+    big_inputs.push(Named { name: "distfib(17)".into(), data: dist_fib(17) });
+    if !quick {
+        big_inputs.push(Named { name: "distfib(19)".into(), data: dist_fib(19) });
+    }
     if !quick {
         big_inputs.push(Named { name: "periodic(258,131073)".into(), data: periodic(258, 131_073) });
         big_inputs.push(Named { name: "text(200000)".into(), data: text(5, 200_000) });
